@@ -103,9 +103,44 @@ package fstree
 //@   requires [whole_file_written_before_link] fileWritten()
 //@   defines (err == nil || errIs(err, unix.EEXIST)) ==> fileLinked()
 //@ callrule writefile_close_result in (*linuxWriter).writeFile
-//@   property C13
+//@   property C12, C13
 //@   callee unix.Close
 //@   defines err == nil ==> fileClosedOK()
 //@ func (*linuxWriter).writeFile
 //@   property C12, C13
 //@   ensures [success_means_written_linked_closed] err == nil ==> fileWritten() && fileLinked() && fileClosedOK()
+
+// ---- C12 / C13 (generic writer): the object's final name is created by renaming a
+// temporary file; the rename may happen only after that temporary file was completely
+// written and closed without error, and the temporary name always carries the '#' mark
+// that CleanUpTmp removes and that no object address can contain.
+
+//@ ghost pred tmpFileComplete() bool
+//@ func (*genericWriter).writeFile
+//@   property C12, C13
+//@   ensures [success_only_after_write_and_close] err == nil ==> fileWriteOK() && fileCloseOK()
+//@   defines err == nil ==> tmpFileComplete()
+//@ ghost pred fileWriteOK() bool
+//@ ghost pred fileCloseOK() bool
+//@ callrule generic_write_result in (*genericWriter).writeFile
+//@   property C12, C13
+//@   callee (*os.File).Write
+//@   defines err == nil ==> fileWriteOK()
+//@ callrule generic_close_result in (*genericWriter).writeFile
+//@   property C12, C13
+//@   callee (*os.File).Close
+//@   defines err == nil ==> fileCloseOK()
+
+//@ callrule rename_only_complete_temp_files in (*genericWriter).writeAndRename
+//@   property C12, C13
+//@   callee os.Rename
+//@   requires [temp_file_written_and_closed] tmpFileComplete()
+
+//@ ghost pred renamedOK() bool
+//@ callrule generic_rename_result in (*genericWriter).writeAndRename
+//@   property C12, C13
+//@   callee os.Rename
+//@   defines err == nil ==> renamedOK()
+//@ func (*genericWriter).writeAndRename
+//@   property C12, C13
+//@   ensures [success_only_after_rename] err == nil ==> tmpFileComplete() && renamedOK()
